@@ -518,7 +518,8 @@ namespace fixedmath
     [[ gnu::const, gnu::always_inline ]]
     constexpr fixed_t fixed_divisionf( fixed_t x, fixed_t y) noexcept
       {
-      if( fixed_likely(y.v != 0) )
+      //dividend has to survive the shift by 16 bits, |x| < 2^31, otherwise the quotient is not representable in general
+      if( fixed_likely(y.v != 0 && check_division_result(x)) )
         {
         fixed_t result { as_fixed( (x << 16).v / y.v ) };
 //         if( fixed_likely( check_division_result(result)) )
@@ -557,6 +558,12 @@ namespace fixedmath
       {
       if( fixed_likely(rh != 0) )
         {
+        if constexpr ( is_unsigned_v<integral_type> && sizeof(integral_type) >= sizeof(fixed_internal) )
+          {
+          //divisor above the range of fixed_internal is greater than any dividend
+          if( fixed_unlikely( rh > static_cast<integral_type>(std::numeric_limits<fixed_internal>::max()) ) )
+            return 0_fix;
+          }
         fixed_t const result = as_fixed( lh.v / promote_type_to_signed(rh) );
 //         if( fixed_likely( check_division_result(result)) )
           return result;
